@@ -5,7 +5,7 @@ import numpy as np
 from hypothesis import strategies as st
 
 from .. import gen, model
-from ..core import Ctx, Violation, call, check, digest, must_raise, per_shard, run_given
+from ..core import Ctx, Violation, call, check, digest, must_raise, per_shard, run_given, given_part, machine_part, run_parts
 
 PID = "C03"
 LEVEL = "exploration"
@@ -437,12 +437,11 @@ def replay(ctx: Ctx, case):
 
 def run(ctx: Ctx):
     q = ctx.tier == "quick"
+    parts = []
     nmax_e, nmax_a = (7, 5) if q else (10, 7)
-    if not run_given(ctx, "engine", engine_cases(nmax_e), check_engine, per_shard(ctx, 160 if q else 1600), batch=20):
-        return
-    if not run_given(ctx, "direct", engine_cases(min(nmax_e, 7)).map(lambda c: dict(c, part="direct")),
-                     check_direct_pixels, per_shard(ctx, 40 if q else 400), batch=10):
-        return
-    if not run_given(ctx, "api", api_cases(nmax_a), check_api, per_shard(ctx, 48 if q else 480), batch=6):
-        return
-    run_given(ctx, "sampled", sampled_cases(4, 10), check_sampled, per_shard(ctx, 3200 if q else 120000), batch=100)
+    parts.append(given_part(ctx, "engine", engine_cases(nmax_e), check_engine, per_shard(ctx, 160 if q else 1600), batch=20))
+    parts.append(given_part(ctx, "direct", engine_cases(min(nmax_e, 7)).map(lambda c: dict(c, part="direct")),
+                     check_direct_pixels, per_shard(ctx, 40 if q else 400), batch=10))
+    parts.append(given_part(ctx, "api", api_cases(nmax_a), check_api, per_shard(ctx, 48 if q else 480), batch=6))
+    parts.append(given_part(ctx, "sampled", sampled_cases(4, 10), check_sampled, per_shard(ctx, 3200 if q else 120000), batch=100))
+    run_parts(ctx, parts)
